@@ -1,6 +1,9 @@
 import Rooc.Wire
 import Rooc.WireSolve
 import Rooc.SolveOracle
+import Rooc.SlowSimplex
+import Rooc.Drv.C13
+import Rooc.Gen.Simplex
 namespace Rooc.Drv.C04
 open Rooc Sexp SolverWrap
 
@@ -33,6 +36,13 @@ def handle (α : Type) [Arith α] [Wire α] : List Sexp → Sexp
           (ClarabelOutcome.dec feas : Option (ClarabelOutcome α)) with
     | some lm, some out, some feas =>
       (wrapClarabelV { emptyModelHandled := e == "1", primalCheck := pc == "1" } lm out feas).enc lm.vars
+    | _, _, _ => app "err" [.atom "decode"]
+  | [.atom "simplex-wrap", tol, limit, lm] =>
+    -- the WHOLE entry point `solve_real_lp_problem_slow_simplex` (no external solver involved)
+    if !(C13.tolOk tol) then app "err" [.atom "tolerance-mismatch"] else
+    match (decNumS tol : Option α), decInt limit, (LinModel.dec lm : Option (LinModel α)) with
+    | some tol, some limit, some lm =>
+      (SlowSimplex.solveReal tol Gen.stallLimitExtra Gen.phase1IterationLimit lm limit).enc lm.vars
     | _, _, _ => app "err" [.atom "decode"]
   | [.atom "as-lp-solution", .list names, .list values, value] =>
     match strs names, optAll (values.map (decNumS (α := α))), (decNumS value : Option α) with
